@@ -59,6 +59,37 @@ def run(ctx, R, tier):
     R.rule("C01-R3", "compression pairing (shared with C06-R7)", floor=2)
     R.rule("C01-R4", "msgpack extension types: every code written by default() is read by ext_hook() with the inverse codec and equal parameters", floor=4)
 
+    R.rule("C01-R5", "recreate_classes recurses through set, list, tuple and dict alike", floor=4)
+    R.rule("C01-R6", "one serializer per exchange: the server answers with the serializer object it decoded the request with; the client decodes with the one it encoded with", floor=2)
+    rc = ctx.fn("Pyro5.serializers.SerializerBase.recreate_classes")
+    lit = rc.params[1]
+    tvars = [n.targets[0].id for n in walk_no_nested(rc.node) if isinstance(n, ast.Assign) and isinstance(n.targets[0], ast.Name) and unparse(n.value) == "type(%s)" % lit]
+    for kind in ("set", "list", "tuple", "dict"):
+        branches = [n for n in walk_no_nested(rc.node) if isinstance(n, ast.If) and isinstance(n.test, ast.Compare) and len(n.test.ops) == 1 and
+                    isinstance(n.test.ops[0], (ast.Is, ast.Eq)) and unparse(n.test.comparators[0]) == kind and
+                    (unparse(n.test.left) in tvars or unparse(n.test.left) == "type(%s)" % lit)]
+        branches += [n for n in walk_no_nested(rc.node) if isinstance(n, ast.If) and isinstance(n.test, ast.Call) and unparse(n.test.func) == "isinstance" and
+                     unparse(n.test.args[0]) == lit and kind in unparse(n.test.args[1])]
+        ok = bool(branches) and any(isinstance(x, ast.Call) and isinstance(x.func, ast.Attribute) and x.func.attr == "recreate_classes"
+                                    for b in branches for st in b.body for x in ast.walk(st))
+        R.check(ok, "C01-R5", "recreate_classes|%s" % kind, "class-tagged values nested in a %s are re-created" % kind, rc.loc(),
+                "recreate_classes does not descend into %s values: a URI/exception/set inside such a container arrives as a raw dict" % kind)
+    for fq, enc, dec, what in (("Pyro5.server.Daemon.handleRequest", "loadsCall", "dumps", "server"), ("Pyro5.client.Proxy._pyroInvoke", "dumpsCall", "loads", "client")):
+        g = ctx.fn(fq)
+        grd = ctx.rd(g)
+
+        def receivers(attr):
+            out = []
+            for c, _ in ctx.cg.calls_of(g):
+                if isinstance(c.func, ast.Attribute) and c.func.attr == attr and isinstance(c.func.value, ast.Name):
+                    for n in ctx.node_of(g, c):
+                        out.append((c.func.value.id, frozenset(d.id for d in grd.reaching(n, c.func.value.id)), c))
+            return out
+        a, b = receivers(enc), receivers(dec)
+        ok = bool(a) and bool(b) and all(x[0] == y[0] and x[1] == y[1] for x in a for y in b)
+        R.check(ok, "C01-R6", "%s|same-serializer" % what, "%s and %s are called on the same serializer object" % (enc, dec), g.loc(),
+                "the %s uses one serializer for the call and possibly another for the result: the type mapping of arguments and results can differ" % what)
+
     sers = ctx.cg.serializer_classes()
     if len(sers) < 4:
         raise AnalysisError("fewer serializer classes than expected (%d)" % len(sers))
